@@ -59,6 +59,10 @@ pub fn confirm_evaluates(tree: &Node, names: &[String]) -> Option<String> {
                     observe::register_fn(&mut c, n, fm.clone(), &log);
                 }
             }
+            // the read-only path first (it must not be more lenient than the mutable one), then the mutable path
+            if let Got::Val(r) = api::eval_tree(tree, &c) {
+                return Some(format!("value family #{} ({}) / functions {:?}: evaluates to {} through eval_with_context", vi, v.show(), fm, r.show()));
+            }
             if let Got::Val(r) = api::eval_tree_mut(tree, &mut c) {
                 return Some(format!("value family #{} ({}) / functions {:?}: evaluates to {}", vi, v.show(), fm, r.show()));
             }
